@@ -91,6 +91,8 @@ pub struct ListenerCtl {
     /// new_service fails for these creation ordinals (0-based)
     pub factory_fail: Vec<u64>,
     pub created: u64,
+    /// keep the worker task's waker on every readiness poll (fault scenarios wake the worker at will)
+    pub keep_wakers: bool,
 }
 
 #[derive(Clone)]
@@ -258,12 +260,16 @@ where
     fn poll_ready(&self, cx: &mut Context<'_>) -> Poll<Result<(), ()>> {
         let step = {
             let mut g = self.ctl.inner.lock().unwrap();
+            let keep = g.keep_wakers;
             let i = g.instances.entry(self.instance).or_default();
             // every step is sticky until the harness advances the script, except the one-shot faults
             let step = i.script.front().copied().unwrap_or(ReadyStep::Ready);
-            // the waker is kept on every poll: a service may wake its worker at any time, and the harness
-            // uses that to make the worker re-check readiness after it changed the script
-            i.waker = Some(cx.waker().clone());
+            // a service may wake its worker at any time; fault scenarios use that to make the worker re-check
+            // readiness after they changed the script. (A kept waker pins the worker runtime's I/O driver, so it is
+            // only kept where needed.)
+            if keep || step == ReadyStep::Pending {
+                i.waker = Some(cx.waker().clone());
+            }
             if matches!(step, ReadyStep::Err | ReadyStep::Panic) {
                 i.script.pop_front();
             }
@@ -751,13 +757,52 @@ impl Running {
         )
     }
 
+    /// Wait until every connection that a client closed after it had been identified has ended on the server side
+    /// (the release is then in progress and `guard_barrier` covers it).
+    pub fn closes_noticed(&self) -> Waited {
+        wait_log(
+            |l| {
+                let mut identified = std::collections::HashSet::new();
+                let mut closed = std::collections::HashSet::new();
+                let mut ended = std::collections::HashSet::new();
+                for r in l {
+                    if let Ev::User { kind, a, .. } = &r.ev {
+                        match *kind {
+                            "identified" => {
+                                identified.insert(*a);
+                            }
+                            "client_close" => {
+                                closed.insert(*a);
+                            }
+                            "end" => {
+                                ended.insert(*a);
+                            }
+                            _ => {}
+                        }
+                    }
+                }
+                closed.iter().all(|c| !identified.contains(c) || ended.contains(c))
+            },
+            WATCHDOG,
+        )
+    }
+
     /// Full barrier of DESIGN §4.3. Returns the accept thread's idle snapshot.
     pub fn barrier(&self, paused: bool) -> Result<Snapshot, Waited> {
+        self.barrier_at(paused).map(|x| x.0)
+    }
+
+    /// Full barrier, also returning the log index of the final idle snapshot (a consistent cut).
+    pub fn barrier_at(&self, paused: bool) -> Result<(Snapshot, usize), Waited> {
+        match self.closes_noticed() {
+            Waited::Ok => {}
+            w => return Err(w),
+        }
         match self.guard_barrier() {
             Waited::Ok => {}
             w => return Err(w),
         }
-        let s = self.accept_barrier(paused)?;
+        self.accept_barrier(paused)?;
         match self.pickup_barrier() {
             Waited::Ok => {}
             w => return Err(w),
@@ -767,8 +812,7 @@ impl Running {
             Waited::Ok => {}
             w => return Err(w),
         }
-        let _ = s;
-        self.accept_barrier(paused)
+        self.accept_barrier_at(paused)
     }
 
     /// Issue stop and wait for the stop future; returns (resolved?, elapsed).
